@@ -167,6 +167,22 @@ fn main() {
             }
             println!("SAN-TOTAL shard={}/{} items={} calls={} oracle_violations={}", shard, shards, n, acc.evaluations, acc.violations.len());
         }
+        Some("cli-scenario") => {
+            // print the scenario JSON of a named reproducer (used when writing known_findings.json)
+            use p_cli::*;
+            let unf = |rel: &str| FileSpec { rel: rel.into(), kind: Kind::File, content: b"#let   x  =  1\nText MARKERabc here.\n".to_vec(), mode: 0o644, class: "unformatted".into() };
+            let sc = match args[2].as_str() {
+                "dot-root-inplace" => Scenario { files: vec![unf("a.typ"), unf("sub/b.typ")], steps: vec![Step { args: vec!["format-all".into(), ".".into()], stdin: None, cwd: String::new() }] },
+                "dot-root-check" => Scenario { files: vec![unf("a.typ"), unf("sub/b.typ")], steps: vec![Step { args: vec!["--check".into(), "format-all".into(), "./".into()], stdin: None, cwd: String::new() }] },
+                "hidden-root-inplace" => Scenario { files: vec![unf(".cfg/a.typ")], steps: vec![Step { args: vec!["format-all".into(), ".cfg".into()], stdin: None, cwd: String::new() }] },
+                "f14-unreadable" => Scenario {
+                    files: vec![unf("a.typ"), FileSpec { rel: "b.typ".into(), kind: Kind::File, content: b"#let   y = 2 MARKERdef\n".to_vec(), mode: 0o000, class: "unreadable".into() }],
+                    steps: vec![Step { args: vec!["--check".into(), "format-all".into()], stdin: None, cwd: String::new() }],
+                },
+                _ => panic!("unknown scenario"),
+            };
+            println!("{}", serde_json::to_string(&sc.to_json()).unwrap());
+        }
         Some("replay") => std::process::exit(props::replay(&args[2])),
         Some("triage") => props::triage(&args[2], workload::Tier::parse(args.get(3).map(|s| s.as_str()).unwrap_or("thorough"))),
         Some("gen") => {
